@@ -68,6 +68,10 @@ def setup():
     REC.append(('zf', repr((a, b, c, d, e, g_))))
 
   @gin.configurable(module='c07')
+  def kwd(a='ka', b='kb', *, k='kk', j=None):      # positional defaults AND keyword-only defaults
+    REC.append(('kwd', a, b, k, j))
+
+  @gin.configurable(module='c07')
   def never(z=0):
     REC.append(('never', z))
 
@@ -82,8 +86,8 @@ def setup():
   K.m.__qualname__ = 'K.m'
   gin.register(K.m)
   gin.register(K)
-  global F, G, CONSUMER, AL, DL, KCLS, Z0, ZF
-  F, G, CONSUMER, AL, DL, KCLS, Z0, ZF = f, g, consumer, al, dl, K, z0, zf
+  global F, G, CONSUMER, AL, DL, KCLS, Z0, ZF, KWD
+  F, G, CONSUMER, AL, DL, KCLS, Z0, ZF, KWD = f, g, consumer, al, dl, K, z0, zf, kwd
 
 
 # ------------------------------------------------------------------------------------- model data
@@ -97,6 +101,7 @@ SIG = {   # selector -> (positional names, representable+allowed defaults)
     'c07.K.m': (['self', 'v', 'u'], {'v': 'mv', 'u': None}),
     'c07.z0': (['a', 'b', 'c', 'd', 'e', 'f_'], {'a': 0, 'b': '', 'c': False, 'd': None, 'e': (), 'f_': 0.0}),
     'c07.zf': (['a', 'b', 'c', 'd', 'e', 'g_'], {'d': 1.5, 'g_': 1e308}),
+    'c07.kwd': (['a', 'b'], {'a': 'ka', 'b': 'kb', 'k': 'kk', 'j': None}),
     'gin.macro': (['value'], {}),
     'gin.constant': ([], {}),
 }
@@ -175,11 +180,13 @@ EVENTS = {
     'z0()': ('c07.z0', [], [], {}),
     'z0(0, b=None)': ('c07.z0', [], [0], {'b': None}),
     's:z0(c=True)': ('c07.z0', ['s'], [], {'c': True}),
+    'kwd()': ('c07.kwd', [], [], {}),
+    "kwd('x', k=1)": ('c07.kwd', [], ['x'], {'k': 1}),
 }
 EVENTS_Q = ['f()', "f('pos')", 'f(b=2)', 's:f()', 's/t:f()', 'consumer()', "consumer('x')", 'al()', 'dl()',
             'K().m()', 'u/K().m()', "K().m(v='cv')", "s:f(a='ka')", 'al(y=5)', 'g()', 'bind f.b=1', 'bind f.b=True',
             'bind g.t=%mm', 'bind g.t=%mm2', 'bind consumer.p=@s/g()', 'bind consumer.p=@u/g()', 'z0()', 'z0(0, b=None)',
-            'f(a=REQ)', 'f(REQ, b=REQ)', 'zf()']
+            'f(a=REQ)', 'f(REQ, b=REQ)', 'zf()', 'kwd()', "kwd('x', k=1)", 'bind g.t=%mnone']
 
 
 def bound(tier):
@@ -203,7 +210,7 @@ def do_event(ev):
         inst = gin.get_configurable(KCLS)()
       inst.m(*args, **kwargs)
     else:
-      fn = {'c07.f': F, 'c07.g': G, 'c07.consumer': CONSUMER, 'c07.al': AL, 'c07.dl': DL, 'c07.z0': Z0, 'c07.zf': ZF}[target]
+      fn = {'c07.f': F, 'c07.g': G, 'c07.consumer': CONSUMER, 'c07.al': AL, 'c07.dl': DL, 'c07.z0': Z0, 'c07.zf': ZF, 'c07.kwd': KWD}[target]
       req = lambda v: gin.REQUIRED if v == 'REQ' else v  # noqa: E731
       with gin.config_scope(list(scope) if scope else None):
         fn(*[req(a) for a in args], **{k: req(v) for k, v in kwargs.items()})
@@ -255,10 +262,12 @@ REBIND = {
     'bind f.b=1.0': ("c07.f.b = 1.0", ('', 'c07.f'), 'b', 1.0),
     'bind g.t=%mm': ("c07.g.t = %mm\nmm = 'macroval'", ('', 'c07.g'), 't', MAC('mm')),
     'bind g.t=%mm2': ("c07.g.t = %mm2\nmm2 = 'second'", ('', 'c07.g'), 't', MAC('mm2')),
+    'bind g.t=%mnone': ("c07.g.t = %mnone\nmnone = None", ('', 'c07.g'), 't', MAC('mnone')),   # a macro bound to None
     'bind consumer.p=@s/g()': ("c07.consumer.p = @s/c07.g()", ('', 'c07.consumer'), 'p', Ref('s', 'c07.g')),
     'bind consumer.p=@u/g()': ("c07.consumer.p = @u/c07.g()", ('', 'c07.consumer'), 'p', Ref('u', 'c07.g')),
 }
-REBIND_MACROS = {'bind g.t=%mm': (('mm', 'gin.macro'), 'macroval'), 'bind g.t=%mm2': (('mm2', 'gin.macro'), 'second')}
+REBIND_MACROS = {'bind g.t=%mm': (('mm', 'gin.macro'), 'macroval'), 'bind g.t=%mm2': (('mm2', 'gin.macro'), 'second'),
+                 'bind g.t=%mnone': (('mnone', 'gin.macro'), None)}
 
 
 class Model:
